@@ -216,6 +216,69 @@ func TestVerifC06(t *testing.T) {
 			})
 		}
 	}
+	// a PLAINTEXT of 2^28+5 bytes (an untouched zero mapping), sealed in one call: far below the limit of SP 800-38D
+	// (2^36-32 bytes), far above every length the other cases use - a limit test that counts in the wrong unit refuses it.
+	// The oracle is partial but exact where it looks: no panic; the ciphertext blocks at the start, around the 2^24-th
+	// counter value and at the end equal the plaintext xor E_K(counter) of the model; the library's own Open accepts the
+	// result in place and returns the zeros; one flipped tag bit is refused.
+	for _, asm := range zvPaths() {
+		if !asm && !hk.Thorough() {
+			continue
+		}
+		zvWithAsm(asm, func() {
+			pn := zvPathName(asm)
+			n := 1<<28 + 5
+			z := hk.ZeroMap(n+4096, false)
+			if z == nil {
+				return
+			}
+			defer hk.Unmap(z)
+			key, nonce, aad := rng.Bytes(16), rng.Bytes(12), rng.Bytes(11)
+			a, err := zvNewAEAD(key, 12, 16)
+			if err != nil {
+				return
+			}
+			var ct []byte
+			p, msg, _, _ := hk.Try(func() { ct = a.Seal(nil, nonce, z[:n], aad) })
+			d := hk.D{"key": hk.Hex(key), "nonce": hk.Hex(nonce), "aad": hk.Hex(aad), "plaintext": fmt.Sprintf("0^%d", n), "panic": msg}
+			if p || len(ct) != n+16 {
+				d["result_len"] = len(ct)
+				r.Violation("seal-refuses-or-truncates-a-plaintext-of-2^28-bytes:"+pn, d)
+				return
+			}
+			g := ref.NewGCM(key)
+			j0 := g.J0(nonce)
+			blkRef := ref.NewSM4Block(key)
+			for _, bi := range []int{0, 1, 1<<24 - 3, 1<<24 - 2, 1<<24 - 1, 1 << 24, n/16 - 1, n / 16} {
+				ctr := j0
+				c := uint32(ctr[12])<<24 | uint32(ctr[13])<<16 | uint32(ctr[14])<<8 | uint32(ctr[15])
+				c += uint32(bi) + 1
+				ctr[12], ctr[13], ctr[14], ctr[15] = byte(c>>24), byte(c>>16), byte(c>>8), byte(c)
+				ks := make([]byte, 16)
+				blkRef.Encrypt(ks, ctr[:])
+				end := 16*bi + 16
+				if end > n {
+					end = n
+				}
+				if !bytes.Equal(ct[16*bi:end], ks[:end-16*bi]) {
+					d["block_index"], d["got"], d["want"] = bi, hk.Hex(ct[16*bi:end]), hk.Hex(ks[:end-16*bi])
+					r.Violation("seal-differs-from-sp800-38d:"+pn+":plaintext-of-2^28-bytes", d)
+					return
+				}
+			}
+			ct[n+3] ^= 0x10
+			if _, err := a.Open(nil, nonce, ct[:n+16:n+16], aad); err == nil {
+				r.Violation("open-accepts-flipped-tag:"+pn+":plaintext-of-2^28-bytes", d)
+			}
+			ct[n+3] ^= 0x10
+			back, oerr := a.Open(ct[:0], nonce, ct, aad)
+			if oerr != nil || len(back) != n || !bytes.Equal(back[:4096], z[:4096]) || !bytes.Equal(back[n-4096:], z[:4096]) {
+				d["err"] = fmt.Sprint(oerr)
+				r.Violation("open-rejects-own-seal:"+pn+":plaintext-of-2^28-bytes", d)
+			}
+			r.Eval(pn + "|plaintext=2^28+5")
+		})
+	}
 	// NONCES of 2^31+12, 2^32+12, 2^32+13 bytes (and 2^24+12): the length that selects the 96-bit derivation is
 	// compared at full width only if nobody narrows it. All-zero nonces (an untouched zero mapping, optionally a
 	// short non-zero tail) have an exact O(1) oracle: zero blocks keep the GHASH state at zero.
